@@ -1,17 +1,19 @@
 /-
   Model of the gene ↔ area bookkeeping of `antismash/common/secmet/record.py`
-    Record.get_cds_features_within_location   (repaired: D4, D5, D6, D4b — see design/C08.md)
-    Record.add_cds_feature, Record._link_cds_to_parent (repaired: D41)
-    Record.add_protocluster / add_candidate_cluster / add_subregion / add_region (CDS linking)
-  and of `CDSCollection.add_cds`, `Protocluster.add_cds`, `Region.add_cds`,
+    Record.get_cds_features_within_location, Record.add_cds_feature (+ `_cds_by_name`, `_cds_by_location`,
+    `_cds_cache`), Record._link_cds_to_parent, Record.add_protocluster / add_candidate_cluster /
+    add_subregion / add_region (CDS linking), Record.clear_regions / clear_subregions /
+    clear_candidate_clusters / clear_protoclusters, Record.get_cds_features / get_cds_by_name /
+    get_cds_features_within_regions
+  and of `CDSCollection.add_cds` (section choice, children), `_CDSCache` / `_SectionedCDSCache` (the gene list,
+  the three section lists, their four dirty flags, `cds_children`), `Protocluster.add_cds`, `Region.add_cds`,
   `Feature.is_contained_by / overlaps_with / __lt__` (the latter three via the shared location model).
 
   Encoding.  A Python list slice `features[a:b]` is the list it denotes; a `while` loop that moves an
-  index over a list is the `takeWhile`/`dropWhile` it computes.  The per-object dictionaries
-  (`area._cdses`, `protocluster._definition_cdses`, `cds.region`) are flattened into relations keyed by
-  object id (`members`, `defs`, `regionOf`), in insertion order.  `bisect.bisect_left(a, x, lo)` is
-  modelled by its documented contract (the partition point of `· < x` in `a[lo:]`), not by its binary
-  search; the list is kept sorted (theorem `run_genes_sorted`), which is bisect's precondition.
+  index over a list is the `takeWhile`/`dropWhile` it computes.  The per-object dictionaries and caches
+  are flattened into relations keyed by object id (see `Rec`), in insertion order.  `bisect.bisect_left/right`
+  is modelled by its documented contract (the partition point), not by its binary search; the list is kept
+  sorted (theorem `genes_stay_sorted`), which is bisect's precondition.
   No imports outside ASV.Model (driver-linkable).
 -/
 import ASV.Model.LocOps
@@ -125,62 +127,102 @@ def product : AreaT → String | mk _ _ _ _ p _ => p
 def kids : AreaT → List AreaT | mk _ _ _ _ _ ks => ks
 end AreaT
 
-/-- the record, as far as gene ↔ area bookkeeping goes -/
+/-- `CollectionSection` -/
+inductive Section where
+  | pre | cross | post
+deriving DecidableEq, Repr, Inhabited
+
+/-- the record, as far as gene ↔ area bookkeeping goes.  Per-object dictionaries and caches are flattened into
+    relations keyed by object id (area id, gene id). -/
 structure Rec where
   len : Int
   genes : List Gene := []              -- `_cds_features` (sorted)
+  byName : List (Nat × Gene) := []     -- `_cds_by_name` (name = gene id)
+  byLoc : List Loc := []               -- keys of `_cds_by_location`
+  cdsCache : List Gene := []           -- `_cds_cache`
+  cdsCacheDirty : Bool := false        -- `_cds_cache_dirty`
   regions : List AreaT := []           -- `_regions`
   protos : List AreaT := []            -- `_protoclusters`
   cands : List AreaT := []             -- `_candidate_clusters`
   subs : List AreaT := []              -- `_subregions`
-  members : List (Nat × Nat) := []     -- (area id, gene id): `area._cdses`, insertion order, no duplicates
+  members : List (Nat × Nat) := []     -- (area id, gene id): `area._cdses._features`, insertion order, no duplicates
+  sections : List ((Nat × Section) × Nat) := []   -- ((area, section), gene): `_pre_origin/_cross_origin/_post_origin._features`
   defs : List (Nat × Nat) := []        -- (protocluster id, gene id): `_definition_cdses`
-  regionOf : List (Nat × Nat) := []    -- (gene id, region id): assignments `cds.region = …`, newest first
+  regionOf : List (Nat × Option Nat) := []   -- (gene id, region id / None): assignments `cds.region = …`, newest first
+  clean : List Nat := []               -- areas whose `_cdses._dirty` is False
+  slotClean : List (Nat × Section) := []           -- section caches whose `_dirty` is False
+  slotVal : List ((Nat × Section) × List Nat) := []   -- `_cached` of the section caches, newest first
+  tupleVal : List (Nat × List (List Nat)) := []    -- the [pre, cross, post] snapshots inside `_cdses._cached`, newest first
+  log : List (List (List Nat)) := []   -- what the observing calls returned, oldest first
 deriving Repr, Inhabited
 
-def insertNew (l : List (Nat × Nat)) (x : Nat × Nat) : List (Nat × Nat) :=
+def insertNew {α} [BEq α] (l : List α) (x : α) : List α :=
   if l.contains x then l else l ++ [x]
 
 /-- `cds.region` -/
 def Rec.regionOfGene (r : Rec) (gid : Nat) : Option Nat :=
-  (r.regionOf.find? fun x => x.1 == gid).map (·.2)
+  ((r.regionOf.find? fun x => x.1 == gid).map (·.2)).join
 
 /-- `area.cds_children` as ids, in insertion order -/
 def Rec.children (r : Rec) (aid : Nat) : List Nat :=
   (r.members.filter fun x => x.1 == aid).map (·.2)
 
+/-- the genes in one section cache of an area, in insertion order -/
+def Rec.section (r : Rec) (aid : Nat) (s : Section) : List Nat :=
+  (r.sections.filter fun x => x.1 == (aid, s)).map (·.2)
+
 /-- `protocluster.definition_cdses` as ids -/
 def Rec.definition (r : Rec) (aid : Nat) : List Nat :=
   (r.defs.filter fun x => x.1 == aid).map (·.2)
 
+/-- the section `CDSCollection.add_cds` files the gene under: the one handed down by the parent, else — when
+    the collection or the gene crosses the origin — cross / post (inside the part after the origin) / pre;
+    `none` = no section argument, the cache's default (post-origin) applies -/
+def chooseSection (areaLoc : Loc) (g : Gene) (given : Option Section) : Option Section :=
+  match given with
+  | some s => some s
+  | none =>
+    if decide (areaLoc.parts.length > 1) || crosses g.loc then
+      if crosses g.loc then some .cross
+      else if decide (areaLoc.parts.length > 1) &&
+          (match areaLoc.parts with | _ :: p1 :: _ => containedBy g.loc (.simple p1) | _ => false) then some .post
+      else some .pre
+    else none
+
 -- `CDSCollection.add_cds` below its containment check, with the subclass tails:
---   self._cdses.add_cds(cds); for child in self._children: if cds.is_contained_by(child): child.add_cds(cds)
+--   section choice; self._cdses.add_cds(cds, section) (both caches marked dirty);
+--   for child in self._children: if cds.is_contained_by(child): child.add_cds(cds, section)
 --   Protocluster: if cds.is_contained_by(self.core_location) and a CORE function names self.product: add to definition
 --   Region: cds.region = self
 -- (a child's own containment check is the `if` that guards the call)
 mutual
-def pushDown (g : Gene) : AreaT → Rec → Rec
-  | .mk id kind _loc core product kids, r =>
-    let r1 := { r with members := insertNew r.members (id, g.id) }
-    let r2 := pushKids g kids r1
+def pushDown (g : Gene) (given : Option Section) : AreaT → Rec → Rec
+  | .mk id kind loc core product kids, r =>
+    let sec := chooseSection loc g given
+    let s := sec.getD .post
+    let r1 := { r with members := insertNew r.members (id, g.id),
+                       sections := insertNew r.sections ((id, s), g.id),
+                       clean := r.clean.filter (· != id),
+                       slotClean := r.slotClean.filter (· != (id, s)) }
+    let r2 := pushKids g sec kids r1
     match kind with
     | .proto =>
       if containedBy g.loc core && g.cores.contains product
       then { r2 with defs := insertNew r2.defs (id, g.id) } else r2
-    | .region => { r2 with regionOf := (g.id, id) :: r2.regionOf }
+    | .region => { r2 with regionOf := (g.id, some id) :: r2.regionOf }
     | _ => r2
-def pushKids (g : Gene) : List AreaT → Rec → Rec
+def pushKids (g : Gene) (sec : Option Section) : List AreaT → Rec → Rec
   | [], r => r
-  | k :: ks, r => pushKids g ks (if containedBy g.loc k.loc then pushDown g k r else r)
+  | k :: ks, r => pushKids g sec ks (if containedBy g.loc k.loc then pushDown g sec k r else r)
 end
 
 /-- `area.add_cds(cds)`: raises ValueError unless the collection contains the CDS -/
 def areaAddCds (r : Rec) (a : AreaT) (g : Gene) : E Rec :=
-  if containedBy g.loc a.loc then pure (pushDown g a r) else throw "value-error"
+  if containedBy g.loc a.loc then pure (pushDown g none a r) else throw "value-error"
 
 /-- `for collection in collections: if cds.is_contained_by(collection): collection.add_cds(cds)` -/
 def linkAll (g : Gene) (areas : List AreaT) (r : Rec) : Rec :=
-  areas.foldl (fun r a => if containedBy g.loc a.loc then pushDown g a r else r) r
+  areas.foldl (fun r a => if containedBy g.loc a.loc then pushDown g none a r else r) r
 
 /-- `Record._link_cds_to_parent` (repaired: every region is examined) -/
 def linkCdsToParent (r : Rec) (g : Gene) : Rec :=
@@ -189,17 +231,19 @@ def linkCdsToParent (r : Rec) (g : Gene) : Rec :=
   let r3 := linkAll g r2.cands r2
   linkAll g r3.subs r3
 
-/-- `Record.add_cds_feature` (translation checks aside): duplicate location or name is refused,
-    the feature is inserted at `bisect_right` (after features with an equal key, so that re-adding
-    features in file order keeps that order), then linked to the collections containing it -/
+/-- `Record.add_cds_feature` (translation checks aside): duplicate location or name is refused (looked up in
+    the two dictionaries), the feature is inserted at `bisect_right` (after features with an equal key, so
+    that re-adding features in file order keeps that order), the gene cache is invalidated, the feature is
+    linked to the collections containing it and entered into the dictionaries -/
 def addCds (r : Rec) (g : Gene) : E Rec :=
   if !keyExists g.loc then throw "value-error"
-  else if r.genes.any (fun f => f.loc == g.loc) then throw "value-error"
-  else if r.genes.any (fun f => f.id == g.id) then throw "value-error"
+  else if r.byLoc.contains g.loc then throw "value-error"
+  else if r.byName.any (fun x => x.1 == g.id) then throw "value-error"
   else
     let before := r.genes.takeWhile fun f => !locLt g.loc f.loc
     let after := r.genes.dropWhile fun f => !locLt g.loc f.loc
-    pure (linkCdsToParent { r with genes := before ++ g :: after } g)
+    let r1 := linkCdsToParent { r with genes := before ++ g :: after, cdsCacheDirty := true } g
+    pure { r1 with byLoc := r1.byLoc ++ [g.loc], byName := r1.byName ++ [(g.id, g)] }
 
 /-- `for cds in self.get_cds_features_within_location(area.location): area.add_cds(cds)` -/
 def addFound (r : Rec) (a : AreaT) : E Rec :=
@@ -219,14 +263,86 @@ def addArea (r : Rec) (a : AreaT) : E Rec :=
       if r.regions.any fun x => overlapsWith a.loc x.loc then throw "value-error"
       else addFound { r with regions := r.regions ++ [a] } a
 
+/-! ### clearing and re-creating -/
+
+/-- `Record.clear_regions`: every gene listed by a region loses its back link, then the regions go -/
+def clearRegions (r : Rec) : Rec :=
+  let resets := r.regions.flatMap fun a => (r.children a.id).map fun gid => (gid, (none : Option Nat))
+  { r with regionOf := resets.reverse ++ r.regionOf, regions := [] }
+
+/-- `create_regions()` as far as this property goes: one `add_region` per region it builds (the regions
+    themselves — which areas, which location — are C06's business and are supplied) -/
+def createRegions (r : Rec) (new : List AreaT) : E Rec := new.foldlM addArea r
+
+/-- `if self._regions: self.clear_regions(); self.create_regions()` -/
+def resetRegions (r : Rec) (new : List AreaT) : E Rec :=
+  if r.regions.isEmpty then pure r else createRegions (clearRegions r) new
+
+/-! ### observing calls (they fill caches) -/
+
+/-- `Record.get_cds_features()` -/
+def peekCds (r : Rec) : Rec :=
+  let r1 := if r.cdsCacheDirty || r.genes.isEmpty then { r with cdsCache := r.genes, cdsCacheDirty := false } else r
+  { r1 with log := r1.log ++ [[r1.cdsCache.map (·.id)]] }
+
+/-- `_CDSCache.features` of one section cache -/
+def slotFeatures (r : Rec) (aid : Nat) (s : Section) : Rec × List Nat :=
+  if r.slotClean.contains (aid, s) then
+    (r, ((r.slotVal.find? fun x => x.1 == (aid, s)).map (·.2)).getD [])
+  else
+    let v := r.section aid s
+    ({ r with slotVal := ((aid, s), v) :: r.slotVal, slotClean := (aid, s) :: r.slotClean }, v)
+
+/-- `collection.cds_children` (`_SectionedCDSCache.features`): regenerated when dirty; the tuple's main
+    sequence is the live dictionary itself, its three sections are snapshots -/
+def peekArea (r : Rec) (aid : Nat) : Rec :=
+  let r1 :=
+    if r.clean.contains aid then r
+    else
+      let p1 := slotFeatures r aid .pre
+      let p2 := slotFeatures p1.1 aid .cross
+      let p3 := slotFeatures p2.1 aid .post
+      { p3.1 with tupleVal := (aid, [p1.2, p2.2, p3.2]) :: p3.1.tupleVal, clean := aid :: p3.1.clean }
+  let snap := ((r1.tupleVal.find? fun x => x.1 == aid).map (·.2)).getD [[], [], []]
+  { r1 with log := r1.log ++ [r1.children aid :: snap] }
+
+def sortNat (l : List Nat) : List Nat := l.foldr (fun x acc => (acc.filter (· < x)) ++ x :: acc.filter (fun y => !(y < x))) []
+
+/-- `Record.get_cds_by_name(name)`: KeyError when absent -/
+def getByName (r : Rec) (gid : Nat) : E Rec :=
+  match r.byName.find? fun x => x.1 == gid with
+  | some (_, g) => pure { r with log := r.log ++ [[[g.id, g.loc.start.toNat, g.loc.end.toNat]]] }
+  | none => throw "KeyError"
+
+/-- `Record.get_cds_features_within_regions()` (reported as a sorted list of names: the order of the
+    regions in the record's list is not modelled) -/
+def withinRegions (r : Rec) : Rec :=
+  { r with log := r.log ++ [[sortNat (r.regions.flatMap fun a => r.children a.id)]] }
+
 inductive Op where
   | cds (g : Gene)
   | area (a : AreaT)
+  | clearRegions
+  | clearSubs (new : List AreaT)      -- `new`: the regions the implied `create_regions()` builds
+  | clearCands (new : List AreaT)
+  | clearProtos (new : List AreaT)
+  | peekCds
+  | peekArea (aid : Nat)
+  | byName (gid : Nat)
+  | withinRegions
 deriving Repr, Inhabited
 
 def step (r : Rec) : Op → E Rec
   | .cds g => addCds r g
   | .area a => addArea r a
+  | .clearRegions => pure (clearRegions r)
+  | .clearSubs new => resetRegions { r with subs := [] } new
+  | .clearCands new => resetRegions { r with cands := [] } new
+  | .clearProtos new => resetRegions { r with protos := [], cands := [] } new
+  | .peekCds => pure (peekCds r)
+  | .peekArea aid => pure (peekArea r aid)
+  | .byName gid => getByName r gid
+  | .withinRegions => pure (withinRegions r)
 
 /-- a history of calls on a fresh record of the given length -/
 def run (len : Int) (ops : List Op) : E Rec := ops.foldlM step { len := len }
